@@ -386,35 +386,72 @@ func c02R4(c *Ctx) {
 	if body == nil {
 		c.violated("R4", "body-eval", p.Pos(er.Pos()), "evalRules does not evaluate rule bodies")
 	} else {
-		gate := ""
-		for f := range FactsOf(er).At(body.Block()) {
-			if _, ok := relsOf(f); ok {
-				continue
-			}
-			s := p.Render(f.cond)
-			if !f.truth {
-				s = "!" + s
-			}
-			if strings.Contains(s, "isTruthy") {
-				gate = s
-			}
-		}
-		want := "phi((*lang.Value).isTruthy(&(*lang.Evaluator).evalExpr(e, rules[i@rules].Pattern)#0.Value) | true)"
-		c.check(gate == want, "R4", "pattern-gate", p.InstrPos(body), "body runs iff pattern absent or truthy", "the body evaluation is gated by "+gate+"; documented: pattern == nil, or isTruthy(pattern value)")
-		c.check(p.Render(body.Call.Args[1]) == "rules[i@rules].Body", "R4", "body-of-ranged-rule", p.InstrPos(body), "the ranged rule's body", "evalRules evaluates "+p.Render(body.Call.Args[1]))
-		// the `true` edge of the merge comes from Pattern == nil
-		allInstrs(er, func(in ssa.Instruction) {
-			phi, ok := in.(*ssa.Phi)
-			if !ok || p.Render(phi) != want {
-				return
-			}
-			for i, e := range phi.Edges {
-				if b, ok := constBool(e); ok && b {
-					g := guardsAtEdge(p, FactsOf(er), phi.Block().Preds[i], phi.Block())
-					c.check(g["rules[i@rules].Pattern == nil"], "R4", "absent-pattern-matches", p.Pos(er.Pos()), "match = true exactly when the rule has no pattern", "the constant-true match is not taken under Pattern == nil")
+		// edge-wise: every way into the body evaluation passes `Pattern == nil` or `isTruthy(pattern value)`
+		F := FactsOf(er)
+		isPatNil := func(fs factSet) bool {
+			for _, rl := range fs.Rels() {
+				if rl.op == relEQ && isNilConst(rl.y) && p.Render(rl.x) == "rules[i@rules].Pattern" {
+					return true
 				}
 			}
-		})
+			return false
+		}
+		isTruthyOfPattern := func(v ssa.Value) bool {
+			return p.Render(v) == "(*lang.Value).isTruthy(&(*lang.Evaluator).evalExpr(e, rules[i@rules].Pattern)#0.Value)"
+		}
+		var gateOK func(fs factSet) bool
+		gateOK = func(fs factSet) bool {
+			if isPatNil(fs) {
+				return true
+			}
+			for f := range fs {
+				if _, isRel := relsOf(f); isRel {
+					continue
+				}
+				if f.truth && isTruthyOfPattern(f.cond) {
+					return true
+				}
+				// a flag merged from the two ways: true on the no-pattern edge, the truthiness otherwise
+				if phi, ok := f.cond.(*ssa.Phi); ok && f.truth {
+					all := len(phi.Edges) > 0
+					for i, e := range phi.Edges {
+						if b, isC := constBool(e); isC {
+							if !b {
+								continue // this edge cannot make the flag true
+							}
+							if !isPatNil(F.OnEdge(phi.Block().Preds[i], phi.Block())) {
+								all = false
+							}
+						} else if !isTruthyOfPattern(e) {
+							all = false
+						}
+					}
+					if all {
+						return true
+					}
+				}
+			}
+			return false
+		}
+		var okAt func(b *ssa.BasicBlock, depth int) bool
+		okAt = func(b *ssa.BasicBlock, depth int) bool {
+			if gateOK(F.At(b)) {
+				return true
+			}
+			if depth > 6 || len(b.Preds) == 0 {
+				return false
+			}
+			for _, pr := range b.Preds {
+				if !gateOK(F.OnEdge(pr, b)) && !okAt(pr, depth+1) {
+					return false
+				}
+			}
+			return true
+		}
+		c.check(okAt(body.Block(), 0), "R4", "pattern-gate", p.InstrPos(body), "body runs only when the pattern is absent or truthy", "the body evaluation can be reached on a path where neither `Pattern == nil` nor `isTruthy(pattern value)` was established")
+		// and the other way round: a truthy / absent pattern is not skipped — the only edges that leave the
+		// iteration without evaluating the body are the falsy pattern, next, and errors (R3, C11/R2)
+		c.check(p.Render(body.Call.Args[1]) == "rules[i@rules].Body", "R4", "body-of-ranged-rule", p.InstrPos(body), "the ranged rule's body", "evalRules evaluates "+p.Render(body.Call.Args[1]))
 	}
 	// evalPatternRules
 	ep := p.LangFunc("(*Evaluator).evalPatternRules")
